@@ -23,6 +23,18 @@ type Env struct {
 	Ret func(results []string) string
 	// Fall is the Lean expression used when a block falls off its end.
 	Fall string
+	// Arith (optional) renders an arithmetic operation "+ - * / %" on two rendered operands; nil = unbounded
+	// `(l op r)`. Used for fixed-width integer semantics (e.g. int32: wrap the result).
+	Arith func(op, l, r string) string
+	// Panic (optional): Lean expression a statement `panic(...)` is rendered to (terminal); "" = unsupported.
+	Panic string
+}
+
+func (env *Env) arith(op, l, r string) string {
+	if env.Arith != nil {
+		return env.Arith(op, l, r)
+	}
+	return "(" + l + " " + op + " " + r + ")"
 }
 
 func exprKey(e ast.Expr) string {
@@ -95,7 +107,7 @@ func (env *Env) expr(e ast.Expr) (string, error) {
 			token.LSS: "<", token.LEQ: "≤", token.GTR: ">", token.GEQ: "≥", token.EQL: "=", token.NEQ: "≠",
 		}
 		if o, ok := op[x.Op]; ok {
-			return "(" + l + " " + o + " " + r + ")", nil
+			return env.arith(o, l, r), nil
 		}
 		if o, ok := cmp[x.Op]; ok {
 			return "(decide (" + l + " " + o + " " + r + "))", nil
@@ -166,9 +178,9 @@ func (env *Env) block(stmts []ast.Stmt, ind string) (string, error) {
 		switch x.Tok {
 		case token.ASSIGN, token.DEFINE:
 		case token.ADD_ASSIGN:
-			rhs = "(" + name + " + " + rhs + ")"
+			rhs = env.arith("+", name, rhs)
 		case token.SUB_ASSIGN:
-			rhs = "(" + name + " - " + rhs + ")"
+			rhs = env.arith("-", name, rhs)
 		default:
 			return "", fmt.Errorf("assign op %v", x.Tok)
 		}
@@ -190,7 +202,7 @@ func (env *Env) block(stmts []ast.Stmt, ind string) (string, error) {
 		if err != nil {
 			return "", err
 		}
-		return "let " + name + " := (" + name + " " + op + " 1)\n" + ind + k, nil
+		return "let " + name + " := " + env.arith(op, name, "1") + "\n" + ind + k, nil
 	case *ast.ReturnStmt:
 		var rs []string
 		for _, r := range x.Results {
@@ -240,6 +252,14 @@ func (env *Env) block(stmts []ast.Stmt, ind string) (string, error) {
 		return "if " + c + " then\n" + ind + "  " + t + "\n" + ind + "else\n" + ind + "  " + e, nil
 	case *ast.BlockStmt:
 		return env.block(append(append([]ast.Stmt{}, x.List...), rest...), ind)
+	case *ast.ExprStmt:
+		// only `panic(...)`, and only when the caller said what a panic is rendered to
+		if c, ok := x.X.(*ast.CallExpr); ok && env.Panic != "" {
+			if id, ok := c.Fun.(*ast.Ident); ok && id.Name == "panic" {
+				return env.Panic, nil
+			}
+		}
+		return "", fmt.Errorf("unsupported expression statement")
 	}
 	return "", fmt.Errorf("unsupported statement %T", s)
 }
